@@ -313,12 +313,7 @@ class World(EventDispatcher):
             self._dead_entities.add(entity)
 
     def _clear_dead_entities(self):
-        """Finalize deletion of any entities marked as dead.
-
-        In the interest of performance, this method duplicates code from
-        the :meth:`delete_entity` method. If that method is changed,
-        those changes should be duplicated here as well.
-        """
+        """Finalize deletion of any entities marked as dead."""
         # Consume marks one by one. A mark is kept while its entity is
         # being finalized (the entity does not exist for its own on_remove
         # callbacks) and dropped whatever happens, so that an invalid one
@@ -332,35 +327,13 @@ class World(EventDispatcher):
 
     def _clear_dead_entity(self, entity: Hashable):
         """Finalize deletion of one entity, see _clear_dead_entities."""
-        for component_type, component in self._entities[entity].items():
-            self._components[component_type].discard(entity)
-
-            if not self._components[component_type]:
-                del self._components[component_type]
-
-            # Event handling
-            if (hasattr(component, '__events__')
-                    and ON_REMOVE_EVENT_NAME in component.__events__):
-                # Code replication
-                # If dispatching is enabled, call on_remove directly
-                # to gain performance. Otherwise an event is dispatched
-                if (ON_REMOVE_EVENT_NAME in component.__events__
-                        and self._dispatch_enabled):
-                    getattr(component,
-                            component.__events__[ON_REMOVE_EVENT_NAME])(
-                                entity, self)
-                # on_add exists but dispatching is disabled
-                elif not self._dispatch_enabled:
-                    self.dispatch(ON_SINGLE_DISPATCH_EVENT_NAME,
-                                  ON_REMOVE_EVENT_NAME,
-                                  component, entity, self)
-
-            # Handlers are unsubscribed even if they do not listen
-            # to on_remove
-            if hasattr(component, '__events__'):
-                self.remove_handler(component)
-
-        del self._entities[entity]
+        # Detach components one by one, as an immediate deletion does:
+        # both tables are updated before each on_remove is sent, hence
+        # callbacks may safely touch the entity again (e.g. remove a
+        # sibling component) and one that raises leaves the remaining
+        # components attached and the tables consistent
+        for component_type in tuple(self._entities[entity]):
+            self.remove_component(entity, component_type)
 
     def remove_component(self, entity: Hashable, component_type: type[C]):
         """Remove a component from an entity, if the entity owns one.
